@@ -355,11 +355,18 @@ def runPassDecrypt (P : Prims) (w : World) (inf outf : Option Str) (envPass : Bo
       if res = .ok then { exit := 0, world := w', stdout := out }
       else { exit := 1, world := w', stdout := out, err := some (.crypto res) }
 
-/-- first line of stdin, trimmed (`ask_user_stderr`) -/
+/-- what `read_line` takes from its input: the bytes up to and including the first newline (all of them if there is none) -/
+def firstLine : Bytes → Bytes
+  | [] => []
+  | b :: r => if b = 10 then [b] else b :: firstLine r
+
+/-- first line of stdin, trimmed (`ask_user_stderr`: `stdin().read_line(&mut line)?` then `line.trim()`).  Only the first
+    line is decoded — `read_line` fails if THAT is not UTF-8; whatever follows it is never looked at.  The terminating
+    newline (and a `\r` before it) is white space, which `trim` removes. -/
 def readName (w : World) : Option Str :=
-  match utf8Decode w.stdin with
+  match utf8Decode (firstLine w.stdin) with
   | none => none
-  | some t => some (Keyring.trim (t.takeWhile (· != '\n')))
+  | some t => some (Keyring.trim t)
 
 /-- `gen_key`; after the D1 repair the keyring file is opened for appending, never truncated -/
 def runKeyGen (P : Prims) (rnd : Rand) (w : World) (outf : Option Str) (envPass : Bool) : Outcome :=
